@@ -448,7 +448,13 @@ def property_oracle(m, meta, o):
                 sig = adj_signature(m, meta)
             return ("T.get_matrix() is not get_matrix().T: %s vs %s" % (o["TG"], o["G"]), sig)
         if o["TG"] is not None and o["Tf"] is not None and not same_vec(matvec(o["TG"], y), o["Tf"], ex):
-            return ("T.get_matrix() @ y differs from T.forward(y)", sig)
+            if not fam:
+                # T.forward(y) = adjoint(y) and T.get_matrix() = get_matrix().T were both confirmed above, so this says
+                # get_matrix().T @ y != adjoint(y): the adjoint is not the transpose of the forward map (reached when the matrix
+                # was assembled and stored by get_matrix() before T copied its transpose)
+                sig = adj_signature(m, meta)
+            return ("T.get_matrix() @ y = get_matrix().T @ y = %s differs from T.forward(y) = adjoint(y) = %s"
+                    % ([float(v) for v in matvec(o["TG"], y)], o["Tf"]), sig)
         return (None, "")
     raise ValueError(op)
 
